@@ -377,7 +377,7 @@ def execute(case, tape):
 
 
 RUN_TIMEOUT_S = 120
-BUDGET = {"quick": (1000, 75), "thorough": (30000, 1200)}
+BUDGET = {"quick": (600, 80), "thorough": (10000, 1300)}
 REAL = c22.REAL + ["pydcop.algorithms.{dpop,mgm2,maxsum,adsa,dsa}"]
 STUB = c22.STUB
 ASSUMPTIONS = ["thread mode only", "pre-emption at synchronisation points and traced line "
